@@ -76,6 +76,11 @@ def run(tier, corrupt=False):
                         # the caller's iterable need not be a list: byte-sized integer arrays are also passed as a bytearray
                         cases.append({"kind": "mut", "prog": r["prog"], "obj": r["obj"], "salt": 0, "actions": acts, "arg_kind": "bytearray"})
                         meta.append((r, "constructed from bytearray"))
+                        # ... or any other iterable: a user-defined sequence object, a generator
+                        cases.append({"kind": "mut", "prog": r["prog"], "obj": r["obj"], "salt": 0, "actions": acts, "arg_kind": "sequence"})
+                        meta.append((r, "constructed from a user-defined sequence"))
+                        cases.append({"kind": "mut", "prog": r["prog"], "obj": r["obj"], "salt": 0, "actions": acts, "arg_kind": "generator"})
+                        meta.append((r, "constructed from a generator"))
                     cases.append({"kind": "mut", "prog": r["prog"], "from_bytes": r["bytes"], "actions": [a for a in acts if a["op"] != "mutate_arg"]})
                     meta.append((r, "deserialized"))
                 # instances whose serialization is REFUSED (case data left None) must not be changed by the attempt either
